@@ -195,7 +195,7 @@ claim("C17", "proof",
       "matched by the tool ignore file (path relative to the walk root), prunes into the very list object os.walk yielded and "
       "calls os.walk without followlinks; _is_dir_excluded <=> exclude/gitignore/tool-ignore match of name/ or path/; "
       "_exceeds_max_size (0 = unlimited, strictly larger, unreadable never excludes); cli._resolve_files passes every "
-      "file-discovery option under its own name; load_tool_ignore returns what _read_ignore_file makes of the NEAREST ignore file on "
+      "file-discovery option under its own name; _get_tool_ignore looks the ignore file up for exactly the (resolved) start directory and caches it under that key only; load_tool_ignore returns what _read_ignore_file makes of the NEAREST ignore file on "
       "the parent chain of the resolved start directory (loop invariant over the visited chain), and _read_ignore_file hands "
       "pathspec exactly the file's non-blank, non-comment lines, verbatim and in order (exact model of the filtering comprehension). "
       "Four defects found here were repaired (symlinked files, glob filtering, "
@@ -212,7 +212,7 @@ claim("C18", "proof",
       "decision function), _get_gitignore_chain returns exactly the directories on the path from the walk root to the "
       "directory that have rules, in order, each with its own spec (ghost depth / index list, counting function for "
       "completeness) and descends to the directory itself; _walk_directory and _is_dir_excluded consult the chain only when "
-      "respect_gitignore is set (also at cli._resolve_files); load_gitignore reads exactly the directory's own .gitignore and _read_ignore_file hands "
+      "respect_gitignore is set (also at cli._resolve_files); _get_gitignore returns load_gitignore(directory), cached under exactly that directory; load_gitignore reads exactly the directory's own .gitignore and _read_ignore_file hands "
       "its rule lines to pathspec verbatim (leading blanks kept, negation-only files are rule files); ST: the caches live in the "
       "resolver instance, no class- or module-level mutable state. The defect that made the original code disagree with git (basename matching, any()) was repaired.",
       "gitignore pattern semantics are delegated to pathspec.check_file (assumed contract) and compared with git 2.39 "
